@@ -263,6 +263,61 @@ func runCase(c Case, o *kit.Obs) *kit.Failure {
 		}
 		base += n
 	}
+	// the same chunks seen through a MultiRowGroup, alone and together with the chunks of a file holding the
+	// same rows written WITHOUT bloom filters: a filter offered for the combined chunk must not answer absent
+	// for any value of any part
+	if len(f.RowGroups()) > 0 && len(rows) > 0 {
+		plain := c.Opts
+		plain.Bloom = nil
+		// (other values than the file's: the uniq-by-index variant of the same plan, or its plain variant)
+		plan2 := c.Plan
+		plan2.Uniq = !plan2.Uniq
+		rows2 := plan2.ExpandWith(&c.Schema)
+		streams2 := ref.ShredRows(&c.Schema, rows2)
+		var f2 *parquet.File
+		if d2, err := pq.WriteFile(&c.Schema, cols, rows2, plain, nil); err == nil {
+			f2, _ = pq.Open(d2)
+		}
+		combos := [][]parquet.RowGroup{f.RowGroups()}
+		if f2 != nil && len(f2.RowGroups()) > 0 {
+			combos = append(combos, append(append([]parquet.RowGroup{}, f.RowGroups()...), f2.RowGroups()...), append(append([]parquet.RowGroup{}, f2.RowGroups()...), f.RowGroups()...))
+		}
+		for ki, rgs := range combos {
+			m := parquet.MultiRowGroup(rgs...)
+			for ci, cc := range m.ColumnChunks() {
+				if !filtered[ci] {
+					continue
+				}
+				bf := cc.BloomFilter()
+				if bf == nil {
+					continue // no filter offered: nothing can be skipped
+				}
+				l := cols[ci].Leaf
+				seen := map[string]bool{}
+				all := streams[ci]
+				if ki > 0 {
+					all = append(append([]ref.LV{}, all...), streams2[ci]...)
+				}
+				for _, e := range all {
+					k := fmt.Sprint(e.I, e.B)
+					if e.Null || seen[k] {
+						continue
+					}
+					seen[k] = true
+					ok, err := bf.Check(pq.Scalar(l, e.I, e.B))
+					if err != nil {
+						return kit.Failf("c07/check-error{multi}", "MultiRowGroup column %d: Check: %v", ci, err)
+					}
+					if !ok {
+						return kit.Failf(fmt.Sprintf("c07/false-negative{type=%s,multi=%d}", physName(l), ki), "the bloom filter of column %d (%s) of a MultiRowGroup of %d row groups (%s) reports the written value %v absent",
+							ci, l.ID, len(rgs), []string{"the file's own", "the file's, then other rows written without filters", "other rows written without filters, then the file's"}[ki], e)
+					}
+					checked++
+				}
+				o.Class("multi-rowgroup-filter")
+			}
+		}
+	}
 	if c.Opts.DictMax > 0 {
 		fallback = true
 	}
